@@ -457,6 +457,9 @@ func (m *mstate) itemLane(n *NodeSpec, v, i int, it *Item, budget, wait int, tim
 				mi.Slot = payDesc(it.Fb.Pay, ftok)
 				mi.Fails = false
 				mi.Lane = append(mi.Lane, MEv{Kind: "fb_end", N: n.ID, V: v, I: i + 1, S1: "ok:" + mi.Slot, T: t()})
+				if it.Fb.Pay == "result" {
+					mi.Slot = ftok // a fallback that answers with a flyt.Result: that Result is the slot, not a value inside one
+				}
 			}
 		}
 	}
@@ -504,6 +507,15 @@ func (m *mstate) runBatch(n *NodeSpec) (string, string) {
 		}
 		mi := m.itemLane(n, v, i, &vs.Items[i], cfg.Retries, cfg.WaitMs, seq && m.known)
 		mb.Items = append(mb.Items, mi)
+		if ex := vs.Items[i].Exec; len(ex) > 0 && ex[0].Nested > 0 && ex[0].Fail == "" && !m.long {
+			if m.steps++; m.steps > visitCap/4 {
+				m.long = true // (a shrink candidate may nest without end: not a verdict)
+				continue
+			}
+			// the item's exec runs a batch node itself (possibly this very node
+			// object, re-entrantly) and waits for it: a complete run inside the item
+			m.runNode(ex[0].Nested - 1)
+		}
 		if mi.Fails {
 			anyFail++
 			if mb.FirstFail < 0 {
